@@ -17,6 +17,9 @@ pub open spec fn split(p: Seq<u8>) -> Seq<Seq<u8>>
         seq![p]
     }
 }
+pub proof fn lemma_split_nonempty(p: Seq<u8>)
+    ensures split(p).len() > 0
+{}
 pub proof fn lemma_first_idx(p: Seq<u8>, c: u8)
     ensures
         0 <= first_idx(p, c) <= p.len(),
